@@ -223,6 +223,69 @@ def run(C, R):
                                            '%s calls %s on a receiver that does not come out of a lock guard' % (
                                                c, m['path']), where(F, e))
         R.floor('C01.I5 state-method-call-sites[%s]' % cfg, nrecv, 40)
+        # ---------------- I8 layering: the lock-protected state is touched only by its own methods
+        allowed_direct = {('timer::timer::TimerState', 'clock'): 'immutable after construction: `&\'static dyn Clock` read'}
+        state_fns = {}
+        for sp in roles.state_structs:
+            for m in F.methods_of(sp, inherent_only=False):
+                state_fns[m['path']] = sp
+        # free helpers that are only ever called from state methods count as part of the state layer
+        changed = True
+        while changed:
+            changed = False
+            for fn in F.raw['fns']:
+                if fn['path'] in state_fns or fn['kind'] == 'closure':
+                    continue
+                callers = [c for c, _ in CG.callers_of(fn['path'])]
+                if callers and all(c in state_fns for c in callers):
+                    state_fns[fn['path']] = state_fns[callers[0]]
+                    changed = True
+        n8 = 0
+        owners = set(o for sp in roles.state_structs.values() for o, _f in sp['owners'])
+        for fn in F.raw['fns']:
+            if fn['path'] in state_fns or fn['kind'] == 'closure':
+                continue
+            if not any(b['term']['k'] == 'call' and 'fn' in b['term']['func'] and
+                       b['term']['func']['fn']['path'].startswith('lock_api::') and
+                       b['term']['func']['fn']['name'] == 'lock' for b in fn['blocks']):
+                continue
+            for path in E.run(fn['path']):
+                for e in path.events:
+                    if e.get('fn') != fn['path'] and (F.fn(e.get('fn') or '') or {}).get('parent') != fn['path']:
+                        continue
+                    locs = []
+                    if e['k'] in ('read', 'write', 'take', 'replace', 'update_waker'):
+                        locs.append(e.get('loc') or e.get('slot'))
+                    elif e['k'] == 'qop':
+                        locs.append(e.get('queue'))
+                    elif e['k'] == 'call':
+                        for i, a in enumerate(e['args']):
+                            if a[0] == 'ref':
+                                if i == 0 and a[1] and a[1][-1] == '<locked>':
+                                    continue   # the whole state as receiver of one of its methods
+                                locs.append(a[1])
+                    for loc in locs:
+                        if not loc or '<locked>' not in loc:
+                            continue
+                        k = loc.index('<locked>')
+                        field = next((x for x in loc[k + 1:] if isinstance(x, str)), None)
+                        if field is None:
+                            continue
+                        n8 += 1
+                        sp = None
+                        for spath, info in roles.state_structs.items():
+                            if any(field == f['name'] for f in F.adt(spath)['variants'][0]['fields']) and \
+                                    fn.get('impl_adt') in [o for o, _ in info['owners']] + list(owners):
+                                sp = spath
+                        if (sp, field) in allowed_direct or any(field == f for (_s, f) in allowed_direct):
+                            R.ok('C01.I8', '%s|%s|listed exception' % (fn['path'], field))
+                        else:
+                            R.fail('C01.I8', [fn['path'], 'state-field-touched-outside-state-layer', field],
+                                   '%s reaches into the lock-protected state (field `%s`) instead of calling a '
+                                   'state method: the state functions are no longer the only transitions of the '
+                                   'primitive, which every path rule relies on' % (fn['path'], field),
+                                   where(F, e) if e.get('ln') else '%s:%s' % (fn['file'], fn['line']))
+        R.floor('C01.I8 direct-state-accesses[%s]' % cfg, n8, 1)
         # ---------------- I6 address stability: by-value temporaries of node-bearing types
         bearing = set(roles.futures) | set(NODE_ADTS)
         wrappers = set()
